@@ -82,7 +82,8 @@ func ParseLine(raw string) Line {
 		l.Command = rest[:sp]
 		rest = rest[sp+1:]
 	}
-	l.HeadOK = cmdRe.MatchString(l.Command) && (!l.HasPrefix || (l.Prefix != "" && !strings.ContainsAny(l.Prefix, " ")))
+	// RFC 2812: prefix = servername / ( nickname [ [ "!" user ] "@" host ] ): it starts with a name
+	l.HeadOK = cmdRe.MatchString(l.Command) && (!l.HasPrefix || (l.Prefix != "" && !strings.ContainsAny(l.Prefix, " ") && l.Prefix[0] != '@' && l.Prefix[0] != '!'))
 	for rest != "" || sp >= 0 {
 		if strings.HasPrefix(rest, ":") {
 			l.Params = append(l.Params, rest[1:])
